@@ -1,6 +1,10 @@
 import Toq.Proofs.MetricsLaws
 import Toq.Proofs.MetricsCommuting
 import Toq.Proofs.MetricsModel
+import Toq.Proofs.MetricsFos
+import Toq.Proofs.MetricsFosModel
+import Toq.Proofs.MetricsFosPure
+import Toq.Model.MetricsFos
 import Mathlib.Analysis.SpecialFunctions.Trigonometric.Inverse
 /-!
 # C13 — state distance and fidelity measures: variational definitions, laws, certificate checkers
@@ -905,5 +909,232 @@ example : ∃ ρ : Matrix (Fin 2) (Fin 2) ℂ, ρ.PosDef ∧ IsDensity ρ := by
   exact ⟨_, hd, hd.posSemidef, by simp [Matrix.trace, Fin.sum_univ_two]; norm_num⟩
 
 end Examples
+
+/-! ## The fidelity of separability (`fidelity_of_separability`, state version)
+
+The program the function builds at level `k = ℓ + 1` for local dimensions `[dA, dB]` is `Toq.Metrics.FosFeasible` (constraints) with
+objective `Re tr X` (`fos_objective_is_re_trace`); an operator on `A ⊗ B^{⊗k}` is a matrix indexed by `Fin dA × (Fin k → Fin dB)`.  The
+function returns the SQUARE of the optimal value (`fosValue`).  The executable model of the same program on flat indices is
+`Toq.Metrics.fosExprs`; the harness compares it with the program picos is handed on every run (stream `fos_embedding`), and
+`fosExprs_refines` proves that it computes the expressions of `FosFeasible`. -/
+
+section FidelityOfSeparability
+open Toq.PPTDisc
+open scoped Kronecker Toq.ChannelOps
+
+variable {dA dB : ℕ}
+
+/-- the value `fidelity_of_separability(ρ, [dA, dB], k = ℓ + 1)` returns: `solution.value ** 2` -/
+noncomputable def fosValue (ℓ : ℕ) (ρ : Matrix (Fin dA × Fin dB) (Fin dA × Fin dB) ℂ) : ℝ := fosV ℓ ρ ^ 2
+
+/-- **The objective.**  `0.5 * trace(X + X.H)` is the real number `Re tr X`. -/
+theorem fos_objective_is_re_trace (X : Matrix (Fin dA × Fin dB) (Fin dA × Fin dB) ℂ) :
+    (1 / 2 : ℂ) * (X + Xᴴ).trace = ((X.trace.re : ℝ) : ℂ) := by
+  apply Complex.ext
+  · rw [fos_objective_eq]; simp
+  · rw [fos_objective_im]; simp
+
+/-- **Every pure product state is feasible with objective one, at every level.**  For unit vectors `a ∈ ℂ^dA`, `b ∈ ℂ^dB` and every
+`k = ℓ + 1 ≥ 1` the point `σ = a aᴴ ⊗ (b bᴴ)^{⊗k}`, `X = ρ = a aᴴ ⊗ b bᴴ` satisfies every constraint the code adds — the block
+matrix `[[ρ, X], [Xᴴ, tr_{B₂…B_k} σ]]`, `σ ⪰ 0`, `tr σ = 1`, `(1 ⊗ Π_sym) σ (1 ⊗ Π_sym) = σ`, `T_{B₁…B_j} σ ⪰ 0` for `j < k` — and
+its objective value `Re tr X` is `1`. -/
+theorem fos_product_feasible (ℓ : ℕ) (a : Fin dA → ℂ) (b : Fin dB → ℂ) (ha : a ⬝ᵥ star a = 1) (hb : b ⬝ᵥ star b = 1) :
+    FosFeasible ℓ (fosProdRho a b) (fosProdRho a b) (fosProdSigma ℓ a b) ∧ (fosProdRho a b).trace.re = 1 :=
+  ⟨fosFeasible_product ℓ a b ha hb, by rw [fosProdRho_trace a b ha hb]; rfl⟩
+
+/-- **No feasible point exceeds one.**  For every density operator `ρ` on `A ⊗ B` (pure or not, separable or not), every level and
+every feasible point `(X, σ)` of the program, the objective `Re tr X` is at most `1` (weak duality of Watrous' fidelity program with
+the dual point `Y = Z = 1`, using the block constraint and `tr σ = 1`). -/
+theorem fos_objective_le_one {ℓ : ℕ} {ρ X : Matrix (Fin dA × Fin dB) (Fin dA × Fin dB) ℂ}
+    {σ : Matrix (HIdx (Fin dA) dB (ℓ + 1)) (HIdx (Fin dA) dB (ℓ + 1)) ℂ} (h : FosFeasible ℓ ρ X σ) (tρ : ρ.trace = 1) :
+    X.trace.re ≤ 1 :=
+  h.objective_le_one tρ
+
+/-- **The fidelity of separability of every pure product state is 1 at every extension level.**  The optimal value of the program is
+exactly `1` and is attained (at the product point), so the returned value `solution.value ** 2` is `1`. -/
+theorem fos_optimum_product (ℓ : ℕ) (a : Fin dA → ℂ) (b : Fin dB → ℂ) (ha : a ⬝ᵥ star a = 1) (hb : b ⬝ᵥ star b = 1) :
+    IsGreatest (fosSet ℓ (fosProdRho a b)) 1 ∧ fosV ℓ (fosProdRho a b) = 1 ∧ fosValue ℓ (fosProdRho a b) = 1 := by
+  refine ⟨fos_isGreatest_product ℓ a b ha hb, fosV_product ℓ a b ha hb, ?_⟩
+  unfold fosValue
+  rw [fosV_product ℓ a b ha hb]; norm_num
+
+/-- the pure product state of the theorems above is the rank-one projector onto `a ⊗ b` -/
+theorem fos_product_state_pure (a : Fin dA → ℂ) (b : Fin dB → ℂ) :
+    fosProdRho a b = vecMulVec (fun i : Fin dA × Fin dB => a i.1 * b i.2) (star fun i : Fin dA × Fin dB => a i.1 * b i.2) :=
+  fosProdRho_eq_vecMulVec a b
+
+/-- **Range of the value.**  For every density operator `ρ` on `A ⊗ B` (`dA, dB ≥ 1`) and every level the program is feasible
+(`X = 0` with any product extension), its optimal value lies in `[0, 1]`, and so does the returned square. -/
+theorem fos_value_bounds (ℓ : ℕ) (hA : 0 < dA) (hB : 0 < dB) {ρ : Matrix (Fin dA × Fin dB) (Fin dA × Fin dB) ℂ}
+    (hρ : ρ.PosSemidef) (tρ : ρ.trace = 1) :
+    0 ≤ fosV ℓ ρ ∧ fosV ℓ ρ ≤ 1 ∧ 0 ≤ fosValue ℓ ρ ∧ fosValue ℓ ρ ≤ 1 := by
+  haveI : Nonempty (Fin dA) := ⟨⟨0, hA⟩⟩
+  obtain ⟨h0, h1⟩ := fosV_mem_Icc ℓ hB hρ tρ
+  refine ⟨h0, h1, ?_, ?_⟩
+  · unfold fosValue; positivity
+  · unfold fosValue; nlinarith
+
+/-- **Objective one is attained exactly by the operators that have an extension obeying the constraints.**  For a density operator `ρ`:
+some feasible point has objective `1` iff there is `σ ⪰ 0` on `A ⊗ B^{⊗k}`, supported on the symmetric subspace of the copies, with
+`T_{B₁…B_j} σ ⪰ 0` for `j < k`, whose `A B₁`-marginal is `ρ` (then `X = ρ` does it; conversely objective `1` forces fidelity `1`
+between `ρ` and the marginal, hence equality: `fid_eq_one_iff`). -/
+theorem fos_value_one_iff_extendible {ℓ : ℕ} {ρ : Matrix (Fin dA × Fin dB) (Fin dA × Fin dB) ℂ} (hρ : ρ.PosSemidef)
+    (tρ : ρ.trace = 1) :
+    (∃ X σ, FosFeasible ℓ ρ X σ ∧ X.trace.re = 1) ↔
+      ∃ σ : Matrix (HIdx (Fin dA) dB (ℓ + 1)) (HIdx (Fin dA) dB (ℓ + 1)) ℂ, σ.PosSemidef ∧ marg1 ℓ σ = ρ ∧
+        ((1 : Matrix (Fin dA) (Fin dA) ℂ) ⊗ₖ symPC dB (ℓ + 1)) * σ * ((1 : Matrix (Fin dA) (Fin dA) ℂ) ⊗ₖ symPC dB (ℓ + 1)) = σ ∧
+        ∀ j : ℕ, 1 ≤ j → j ≤ ℓ → (pTYs (fun t : Fin (ℓ + 1) => (t : ℕ) < j) σ).PosSemidef :=
+  fos_attains_one_iff hρ tρ
+
+/-- **Monotone in the level.**  Tracing out the last copy of `B` maps a feasible point of level `k + 1` to a feasible point of level `k`
+with the same `X`; hence the optimal value does not increase with the level. -/
+theorem fos_level_monotone {ℓ : ℕ} {ρ : Matrix (Fin dA × Fin dB) (Fin dA × Fin dB) ℂ} (tρ : ρ.trace = 1) :
+    (∀ X σ, FosFeasible (ℓ + 1) ρ X σ → FosFeasible ℓ ρ X (margLast σ)) ∧
+      ((fosSet (ℓ + 1) ρ).Nonempty → fosV (ℓ + 1) ρ ≤ fosV ℓ ρ) :=
+  ⟨fun _ _ h => h.pred, fosV_succ_le ℓ tρ⟩
+
+/-- **For pure states the PPT criterion is exact.**  The projector onto `ψ ∈ ℂ^dA ⊗ ℂ^dB` has a positive semidefinite partial transpose —
+the first test of `is_separable`, which `fidelity_of_separability` consults after `is_pure` — iff `ψ = a ⊗ b` is a product vector.  So a pure
+state is accepted only if it is a product state, and rejecting the pure states that fail the test ("Provided input state is entangled")
+rejects no product state. -/
+theorem pure_state_ppt_iff_product (ψ : Fin dA × Fin dB → ℂ) :
+    (pTAp (vecMulVec ψ (star ψ))).PosSemidef ↔ ∃ (a : Fin dA → ℂ) (b : Fin dB → ℂ), ∀ i, ψ i = a i.1 * b i.2 :=
+  pure_ppt_iff_product ψ
+
+/-- **Every pure state the PPT test lets through has fidelity of separability 1 at every level**: for a unit vector `ψ` whose projector
+has a positive semidefinite partial transpose, the optimum of the program is `1`, it is attained, and the returned square is `1`. -/
+theorem fos_value_pure_ppt (ℓ : ℕ) (ψ : Fin dA × Fin dB → ℂ) (hψ : ψ ⬝ᵥ star ψ = 1)
+    (h : (pTAp (vecMulVec ψ (star ψ))).PosSemidef) :
+    IsGreatest (fosSet ℓ (vecMulVec ψ (star ψ))) 1 ∧ fosValue ℓ (vecMulVec ψ (star ψ)) = 1 := by
+  obtain ⟨h1, h2⟩ := fosV_pure_ppt ℓ ψ hψ h
+  refine ⟨h1, ?_⟩
+  unfold fosValue
+  rw [h2]; norm_num
+
+/-- the (unnormalised) Bell vector `|00⟩ + |11⟩` fails the test: its `2 × 2` minor is `1 · 1 − 0 · 0 ≠ 0` -/
+example : ¬ (pTAp (vecMulVec (fun i : Fin 2 × Fin 2 => if i.1 = i.2 then (1 : ℂ) else 0)
+    (star fun i : Fin 2 × Fin 2 => if i.1 = i.2 then (1 : ℂ) else 0))).PosSemidef := by
+  intro h
+  have := minors_eq_zero_of_ppt_pure _ h 0 1 0 1
+  simp at this
+
+/-- **Which inputs are accepted.**  The program is built and solved exactly when `is_density(ρ)` holds, `dims` has length two, `is_pure(ρ)`
+holds, `is_separable(ρ, dims)` returns `True`, and the two dimensions multiply to the size of `ρ`. -/
+theorem fosGuard_solve_iff (density : Bool) (dimsLen : Nat) (pure : Bool) (sep : FosSepVerdict) (prodOk : Bool) :
+    fosGuard density dimsLen pure sep prodOk = .solve ↔
+      density = true ∧ dimsLen = 2 ∧ pure = true ∧ sep = .separable ∧ prodOk = true := by
+  unfold fosGuard
+  cases density <;> cases pure <;> cases sep <;> cases prodOk <;> by_cases h : dimsLen = 2 <;> simp [h]
+
+/-- **Mixed or non-density inputs are rejected**, and with which error: a non-density input always ends in
+`ValueError("… not a density matrix.")` (whatever `dims` is); a density operator with a `dims` list of another length than two ends in the
+`AssertionError`; a density operator with two dimensions that is not pure ends in `ValueError("… only works for pure states.")`; a pure
+state is rejected as entangled exactly when `is_separable` returns `False`, and an exception inside `is_separable` propagates. -/
+theorem fosGuard_rejects (density : Bool) (dimsLen : Nat) (pure : Bool) (sep : FosSepVerdict) (prodOk : Bool) :
+    (density = false → fosGuard density dimsLen pure sep prodOk = .notDensity) ∧
+    (density = true → dimsLen ≠ 2 → fosGuard density dimsLen pure sep prodOk = .notBipartite) ∧
+    (density = true → dimsLen = 2 → pure = false → fosGuard density dimsLen pure sep prodOk = .notPure) ∧
+    (density = true → dimsLen = 2 → pure = true → sep = .entangled → fosGuard density dimsLen pure sep prodOk = .entangled) ∧
+    (density = true → dimsLen = 2 → pure = true → sep = .raises → fosGuard density dimsLen pure sep prodOk = .sepError) ∧
+    (density = true → dimsLen = 2 → pure = true → sep = .separable → prodOk = false →
+      fosGuard density dimsLen pure sep prodOk = .buildError) := by
+  unfold fosGuard
+  refine ⟨?_, ?_, ?_, ?_, ?_, ?_⟩ <;> intros <;> simp_all
+
+/-- `is_pure` as a predicate on the largest eigenvalue `λ = re + i·im`: `|λ − 1| ≤ 1e-8 + 1e-5` (`np.allclose(λ, 1)`) -/
+theorem fosPureGuard_spec (re im : ℚ) :
+    fosPureGuard re im = true ↔ (re - 1) ^ 2 + im ^ 2 ≤ (1 / 100000000 + 1 / 100000 : ℚ) ^ 2 := by
+  unfold fosPureGuard
+  rw [decide_eq_true_eq]
+  constructor <;> intro h <;> nlinarith [h]
+
+/-- what the dimensions alone decide about `is_separable(ρ, [dA, dB])` for an `n × n` matrix: a one-dimensional factor returns `True`
+(even when `dA · dB ≠ n`), otherwise a product different from `n` raises, otherwise the separability criteria are consulted -/
+theorem fosSepHead_spec (n dA' dB' : Nat) :
+    (min dA' dB' = 1 → fosSepHead n dA' dB' = some .separable) ∧
+    (min dA' dB' ≠ 1 → dA' * dB' ≠ n → fosSepHead n dA' dB' = some .raises) ∧
+    (min dA' dB' ≠ 1 → dA' * dB' = n → fosSepHead n dA' dB' = none) := by
+  unfold fosSepHead
+  refine ⟨?_, ?_, ?_⟩ <;> intros <;> simp_all
+
+/-- the hypotheses of the product-state theorems are satisfiable on a genuinely complex instance with unequal dimensions:
+`a = (3/5, 4i/5) ∈ ℂ²`, `b = (0, i, 0) ∈ ℂ³` are unit vectors -/
+example : ∃ (a : Fin 2 → ℂ) (b : Fin 3 → ℂ), a ⬝ᵥ star a = 1 ∧ b ⬝ᵥ star b = 1 ∧ a 1 ≠ star (a 1) := by
+  refine ⟨![3 / 5, 4 / 5 * Complex.I], ![0, Complex.I, 0], ?_, ?_, ?_⟩
+  · simp only [dotProduct, Fin.sum_univ_two, Pi.star_apply, Matrix.cons_val_zero, Matrix.cons_val_one]
+    apply Complex.ext
+    · simp; norm_num
+    · simp
+  · simp [dotProduct, Fin.sum_univ_three]
+  · intro h
+    have := congrArg Complex.im h
+    simp at this
+    norm_num at this
+
+/-- the guard model on concrete inputs: a pure product state with two dimensions is solved; a mixed state is rejected as not pure also when it is
+separable; a non-density input is rejected first even if `dims` is malformed too; `dims = [4, 1]` accepts every pure state on `ℂ⁴`
+(`is_separable` returns `True` for a one-dimensional factor); eigenvalue `1 − 4·10⁻⁵` is not pure, `1 − 5·10⁻⁶` is -/
+example : fosGuard true 2 true .separable true = .solve ∧ fosGuard true 2 false .separable true = .notPure ∧
+    fosGuard false 3 false .raises false = .notDensity ∧ fosGuard true 3 true .separable true = .notBipartite ∧
+    fosGuard true 2 true .entangled true = .entangled ∧ fosSepHead 4 4 1 = some .separable ∧ fosSepHead 4 2 3 = some .raises ∧
+    fosSepHead 6 2 3 = none ∧ fosPureGuard (1 - 4 / 100000) 0 = false ∧ fosPureGuard (1 - 5 / 1000000) 0 = true := by
+  decide +kernel
+
+/-- **The executable model computes the expressions of the program.**  Flat (tensor-order) data `ρN`, `XN`, `σN` denote the operators
+`ofFlatAB ρN`, `ofFlatAB XN` on `A ⊗ B` and `ofFlat k σN` on `A ⊗ B^{⊗k}` (`encAB`, `encH`: big-endian digits with radices `[dA, dB, …, dB]`).
+For every `dA`, every `dB ≥ 1` and every level `k = ℓ + 1` the model `fosExprs`, read over `ℂ`, returns: the block matrix
+`[[ρ, X], [Xᴴ, tr_{B₂…B_k} σ]]`; `tr σ`; `(k!)²` times the residual `(1 ⊗ Π_sym) σ (1 ⊗ Π_sym) − σ` of the symmetric-subspace equation with
+toqito's own `symmetric_projection` (mirror model of C18); the list of the `k − 1` partial transposes `T_{B₁…B_j} σ`, `j = 1 … k − 1`; and
+`tr(X + Xᴴ)`, twice the objective. -/
+theorem fosExprs_refines (hd : 0 < dB) (ℓ : ℕ) (ρN XN σN : ℕ → ℕ → ℂ) :
+    ofFlatS (dA := dA) (d := dB) (fosExprsC dA dB (ℓ + 1) ρN XN σN).block
+        = Matrix.fromBlocks (ofFlatAB ρN) (ofFlatAB XN) (ofFlatAB XN)ᴴ (marg1 ℓ (ofFlat (ℓ + 1) σN)) ∧
+    (fosExprsC dA dB (ℓ + 1) ρN XN σN).sigma = σN ∧
+    (fosExprsC dA dB (ℓ + 1) ρN XN σN).trace = (ofFlat (dA := dA) (d := dB) (ℓ + 1) σN).trace ∧
+    ofFlat (dA := dA) (d := dB) (ℓ + 1) (fosExprsC dA dB (ℓ + 1) ρN XN σN).symRes
+        = (((ℓ + 1).factorial : ℂ) * ((ℓ + 1).factorial : ℂ)) •
+          (((1 : Matrix (Fin dA) (Fin dA) ℂ) ⊗ₖ symPC dB (ℓ + 1)) * ofFlat (ℓ + 1) σN * ((1 : Matrix (Fin dA) (Fin dA) ℂ) ⊗ₖ symPC dB (ℓ + 1))
+            - ofFlat (ℓ + 1) σN) ∧
+    (fosExprsC dA dB (ℓ + 1) ρN XN σN).pts = (List.range' 1 ℓ).map (fun j => fosPT dA dB (ℓ + 1) j σN) ∧
+    (∀ j, ofFlat (dA := dA) (d := dB) (ℓ + 1) (fosPT dA dB (ℓ + 1) j σN)
+        = pTYs (fun t : Fin (ℓ + 1) => (t : ℕ) < j) (ofFlat (ℓ + 1) σN)) ∧
+    (fosExprsC dA dB (ℓ + 1) ρN XN σN).obj2 = (ofFlatAB (dA := dA) (d := dB) XN + (ofFlatAB XN)ᴴ).trace :=
+  ⟨fosExprsC_block ℓ ρN XN σN, rfl, fosExprsC_trace ℓ ρN XN σN, fosExprsC_sym hd ℓ ρN XN σN, fosExprsC_pts ℓ ρN XN σN,
+    fun j => fosExprsC_pt ℓ j σN, fosExprsC_obj (ℓ + 1) ρN XN σN⟩
+
+/-- **The model decides feasibility.**  The point denoted by flat data `(XN, σN)` is a feasible point of the program of the operator
+denoted by `ρN` exactly when the model's block matrix, `σ` and every partial transpose in its list denote positive semidefinite
+operators, its trace expression is `1`, and its symmetric-subspace residual is `0` — these are the quantities the driver operation
+`c13_fos_exprs` returns and the harness compares with the program picos is handed. -/
+theorem fosExprs_feasible_iff (hd : 0 < dB) (ℓ : ℕ) (ρN XN σN : ℕ → ℕ → ℂ) :
+    FosFeasible ℓ (ofFlatAB (dA := dA) (d := dB) ρN) (ofFlatAB XN) (ofFlat (ℓ + 1) σN) ↔
+      (ofFlatS (dA := dA) (d := dB) (fosExprsC dA dB (ℓ + 1) ρN XN σN).block).PosSemidef ∧
+      (ofFlat (dA := dA) (d := dB) (ℓ + 1) (fosExprsC dA dB (ℓ + 1) ρN XN σN).sigma).PosSemidef ∧
+      (fosExprsC dA dB (ℓ + 1) ρN XN σN).trace = 1 ∧
+      ofFlat (dA := dA) (d := dB) (ℓ + 1) (fosExprsC dA dB (ℓ + 1) ρN XN σN).symRes = 0 ∧
+      ∀ P ∈ (fosExprsC dA dB (ℓ + 1) ρN XN σN).pts, (ofFlat (dA := dA) (d := dB) (ℓ + 1) P).PosSemidef :=
+  fosFeasible_iff_model hd ℓ ρN XN σN
+
+/-- **The product point of the driver is the product point of the theorems.**  The flat matrix `s_j s_jᴴ`, `s_j = a ⊗ conj(b)^{⊗j} ⊗ b^{⊗(k−j)}`
+(`fosProdVec`, `fosOuter`: what `c13_fos_product` builds and compares the model's expressions with) denotes
+`a aᴴ ⊗ (conj(b) conj(b)ᴴ)^{⊗j} ⊗ (b bᴴ)^{⊗(k−j)}`, which is the partial transpose on `B₁…B_j` of the product point `σ = a aᴴ ⊗ (b bᴴ)^{⊗k}`
+of `fos_product_feasible` (`j = 0`: the point itself). -/
+theorem fosProductPoint_model (ℓ j : ℕ) (aN bN : ℕ → ℂ) :
+    ofFlat (dA := dA) (d := dB) (ℓ + 1) (fosOuter (fosProdVec dB aN bN j (ℓ + 1)))
+        = pTYs (fun t : Fin (ℓ + 1) => (t : ℕ) < j) (fosProdSigma ℓ (fun x : Fin dA => aN x) (fun y : Fin dB => bN y)) ∧
+    ofFlat (dA := dA) (d := dB) (ℓ + 1) (fosOuter (fosProdVec dB aN bN 0 (ℓ + 1)))
+        = fosProdSigma ℓ (fun x : Fin dA => aN x) (fun y : Fin dB => bN y) := by
+  refine ⟨?_, ofFlat_fosProdSigma ℓ aN bN⟩
+  rw [ofFlat_fosOuter_prodVec]
+  unfold fosProdSigma
+  rw [pTYs_prodExt]
+
+/-- the flat index is the usual one: `(a, (y₁, y₂)) ↦ (a · dB + y₁) · dB + y₂`, below `dA · dB²`, and injective -/
+example : encH (dA := 2) (d := 3) (L := 2) ((1, ![2, 0]) : HIdx (Fin 2) 3 2) = 15 ∧
+    (∀ i : HIdx (Fin 2) 3 2, encH i < 2 * 3 ^ 2) ∧ Function.Injective (encH (dA := 2) (d := 3) (L := 2)) := by
+  refine ⟨by decide, fun i => ?_, encH_inj⟩
+  rw [← prodN_fosDims]; exact encH_lt i
+
+end FidelityOfSeparability
 
 end Toq.C13
